@@ -368,3 +368,17 @@ func Recover(f func()) (p interface{}) {
 	f()
 	return nil
 }
+
+// RunDir is the scratch directory of the current run (set by the orchestrator for its workers
+// and by the replay command); it is private to the run, so concurrent checks cannot disturb
+// each other's files.
+func RunDir() string {
+	if d := os.Getenv("VERIF_RUNDIR"); d != "" {
+		return d
+	}
+	root := os.Getenv("VERIF_ROOT")
+	if root == "" {
+		root = "/verif"
+	}
+	return filepath.Join(root, ".run", fmt.Sprintf("adhoc.%d", os.Getpid()))
+}
